@@ -95,7 +95,9 @@ def case_package(case_seed: int, idx: int, corpus_every: int = 0) -> dict:
 
         return shapes.shape_package(idx // 13 + case_seed)
     if idx % 11 == 5:
-        return workload.two_package_container(H(case_seed, "pkg") % (2**40))
+        return workload.two_package_container(H(case_seed, "pkg") % (2**40), spread=False)
+    if idx % 11 == 9:
+        return workload.two_package_container(H(case_seed, "pkg") % (2**40), spread=True)
     return workload.generate_package(H(case_seed, "pkg"))
 
 
